@@ -574,6 +574,16 @@ class StmtMixin(object):
             s.pc.append(s.out_n >= 0)
         return s
 
+    def entry_snapshot(self, st):
+        snap = {}
+        for k, v in st.loc.items():
+            snap['entry(%s)' % k] = self.deref_for_contract(v, st)
+        for k, v in st.ghost.items():
+            snap['entry(%s)' % k] = v
+        if st.out_n is not None:
+            snap['entry(NOUT)'] = IntV(st.out_n)
+        return snap
+
     def check_invariant(self, lp, st, kind, ordinal, extra_ns=None):
         for label, text in lp.invariant:
             val, facts = self.contract_bool(text, st, extra_ns)
@@ -595,9 +605,10 @@ class StmtMixin(object):
             raise Unsupported('loop %d (line %d) has no invariant in the contract' % (ordinal, s.lineno))
         if s.orelse:
             raise Unsupported('while-else')
-        self.check_invariant(lp, st, 'inv-init', ordinal)
+        snap = self.entry_snapshot(st)
+        self.check_invariant(lp, st, 'inv-init', ordinal, snap)
         h = self.havoc_for_loop(st, s.body, lp)
-        h = self.assume_invariant(lp, h)
+        h = self.assume_invariant(lp, h, snap)
         for s1, g in self.ev(s.test, h):
             if is_exc(g):
                 yield s1, ('raise', g)
@@ -608,14 +619,14 @@ class StmtMixin(object):
                     continue
                 v0 = None
                 if lp.variant is not None:
-                    v0v, facts = self.contract_value(lp.variant, s2)
+                    v0v, facts = self.contract_value(lp.variant, s2, snap)
                     v0 = to_int(v0v)
                     self.add_oblig('variant-bounded[loop %d]' % ordinal, 'variant', s2, v0 >= 0, facts, line=s.lineno)
                 for s3, out in self.ex(s.body, s2):
                     if out[0] in ('next', 'continue'):
-                        self.check_invariant(lp, s3, 'inv-keep', ordinal)
+                        self.check_invariant(lp, s3, 'inv-keep', ordinal, snap)
                         if v0 is not None:
-                            v1v, facts = self.contract_value(lp.variant, s3)
+                            v1v, facts = self.contract_value(lp.variant, s3, snap)
                             self.add_oblig('variant-decreases[loop %d]' % ordinal, 'variant', s3,
                                            to_int(v1v) < v0, facts, line=s.lineno)
                     elif out[0] == 'break':
@@ -677,7 +688,15 @@ class StmtMixin(object):
             elem = seq.get
         else:
             raise Unsupported('for over %r at line %d' % (seq, s.lineno))
-        extra = lambda k: {lp.index: IntV(k), (lp.seq or '__SEQ__'): seq}
+        snap = self.entry_snapshot(st)
+
+        def extra(k):
+            d = {lp.index: IntV(k), (lp.seq or '__SEQ__'): seq}
+            d.update(snap)
+            if isinstance(seq, ListV) and lp.seq:
+                for g, f in seq.traj.items():
+                    d['%s_%s' % (lp.seq, g)] = FuncV(g, (lambda f: (lambda a: IntV(f(to_int(a)))))(f))
+            return d
         self.check_invariant(lp, st, 'inv-init', ordinal, extra(p0))
         h = self.havoc_for_loop(st, s.body, lp, extra_names=target_names(s.target))
         k = fresh(lp.index)
